@@ -40,15 +40,31 @@ deriving Repr, DecidableEq
 def Dur.new (sec : Int) (nanosec : Nat) : Dur :=
   { sec := sat32 (sec + (nanosec / NS : Nat)), ns := nanosec % NS }
 
-/-- `impl Add<Duration> for Duration` and `impl Add<Duration> for Time` -/
-def Dur.add (a b : Dur) : Dur :=
+/-- seconds and nanoseconds as one number (`total_nanosec`, i64 in the code: |sec| ≤ 2^31 and nanosec < 2^32, so sums and
+    differences of two totals stay below 2^63 — the model uses `Int`) -/
+def totalNs (d : Dur) : Int := d.sec * (NS : Int) + (d.ns : Int)
+def TOT_MIN : Int := I32MIN * (NS : Int)
+def TOT_MAX : Int := I32MAX * (NS : Int) + ((NS : Int) - 1)
+def clampTot (t : Int) : Int := if t < TOT_MIN then TOT_MIN else if t > TOT_MAX then TOT_MAX else t
+/-- `from_total_nanosec`: clamp, then `div_euclid` / `rem_euclid` -/
+def fromTotal (t : Int) : Dur :=
+  let c := clampTot t
+  { sec := c / (NS : Int), ns := (c % (NS : Int)).toNat }
+
+/-- `impl Add<Duration> for Duration` and `impl Add<Duration> for Time` (with fixes/D50.patch: the total saturates as a whole) -/
+def Dur.add (a b : Dur) : Dur := fromTotal (totalNs a + totalNs b)
+
+/-- `impl Sub<Duration> for Duration` (with fixes/D50.patch) -/
+def Dur.sub (a b : Dur) : Dur := fromTotal (totalNs a - totalNs b)
+
+/-- the operators before fixes/D50.patch: seconds saturate, nanoseconds wrap (regression witness) -/
+def Dur.addOld (a b : Dur) : Dur :=
   let sec := sat32 (a.sec + b.sec)
   let n := a.ns + b.ns
   let q := n / NS
   { sec := sat32 (sec + asI32 q), ns := (n - q * NS) % TWO32 }
 
-/-- `impl Sub<Duration> for Duration` -/
-def Dur.sub (a b : Dur) : Dur :=
+def Dur.subOld (a b : Dur) : Dur :=
   let sec := sat32 (a.sec - b.sec)
   if a.ns < b.ns then
     { sec := sat32 (sec - 1), ns := asU32 ((NS : Int) + (a.ns : Int) - (b.ns : Int)) }
